@@ -9,6 +9,7 @@
 import Driver.CoreCmd
 import Driver.RewriteCmd
 import Driver.FunctorCmd
+import Driver.FoliateCmd
 import Driver.CartesianCmd
 import Driver.WiresCmd
 import Driver.ReprCmd
@@ -21,6 +22,7 @@ def handlers : List (String → List String → Option String) :=
   [ DV.CoreCmd.handle
   , DV.RewriteCmd.handle
   , DV.FunctorCmd.handle
+  , DV.FoliateCmd.handle
   , DV.CartCmd.handle
   , DV.WiresCmd.handle
   , DV.ReprCmd.handle
